@@ -21,7 +21,6 @@ def expected(st):
 
 def replay_state(chk, st, cplx, table):
     from spectrum import arburg, pburg
-    from spectrum.burg import _arburg2
     if st['phase'] != 'run':
         return
     mode = 'complex' if cplx else 'real'
@@ -50,15 +49,6 @@ def replay_state(chk, st, cplx, table):
             chk.violation('C13:arburg:%s:values:%s' % (mode, ename), 'arburg(x=%s as %s, %d) is not the Burg model: %s' % (np.asarray(x).tolist(), ename, q, bad),
                           dict(case, observed={'a': a, 'rho': rho, 'ref': ref}))
     xa = np.array(vals, dtype=complex if cplx else float)
-    ok, res = call_guard(_arburg2, xa.copy(), q)
-    if not ok:
-        chk.violation('C13:_arburg2:%s:raises' % mode, '_arburg2 raises %r' % (res,), {'x': xa, 'order': q})
-    else:
-        a2, e2, ref2 = res
-        bad = (cmp_vec(np.asarray(a2)[1:], expA, name='ar') or cmp_scalar(np.asarray(a2)[0], 1.0, name='a0')
-               or cmp_scalar(e2, expRho, name='rho') or cmp_vec(ref2, expK, name='reflection'))
-        if bad:
-            chk.violation('C13:_arburg2:%s:values' % mode, '_arburg2(x=%s, %d): %s' % (xa.tolist(), q, bad), {'x': xa, 'order': q})
     for kw in ({'NFFT': 16}, {'NFFT': 9, 'sampling': 4.0}, {'NFFT': 16, 'sampling': 0.5, 'scale_by_freq': True}):
         ok, obj = call_guard(lambda: pburg(xa.copy(), q, **kw))
         if ok:
@@ -261,7 +251,7 @@ def replay_criteria(chk, st):
     exp = list(ret)
     regs_ok = c.data == float(hist[-1]) and (len(hist) < 2 or c.old_data == float(hist[-2]))
     if got != exp or not regs_ok:
-        chk.violation('C13:criteria-object:stop-rule', 'Criteria registers / stop decisions %s differ from the model %s for values %s'
+        chk.violation('X07:criteria-object:stop-rule', 'Criteria registers / stop decisions %s differ from the model %s for values %s'
                       % (got, exp, list(hist)), {'values': list(hist), 'expect': exp, 'observed': got})
     chk.count('criteria-object', 'replayed')
     chk.replayed += 1
@@ -275,7 +265,7 @@ def criteria_job(chk):
 
 
 def run(chk):
-    core.run_jobs(chk, jobs(chk) + [criteria_job(chk)])
+    core.run_jobs(chk, jobs(chk))      # (Criteria.tla and the private _arburg2 are replayed by X07: not part of C13)
     obs_events(chk)
 
 
